@@ -99,14 +99,17 @@ StepInit(mm, e) ==
     IF e.res = 0 THEN [mm EXCEPT !.t = e.t, !.conns[e.c].cid = e.cid, !.conns[e.c].initl = l] ELSE [mm EXCEPT !.t = e.t]
 
 StepReq(mm, e) ==
-    LET r  == [id |-> e.id, c |-> e.c, kind |-> e.kind, cmd |-> e.cmd, will |-> e.will, key |-> e.key, lid |-> e.lid,
-               to |-> e.to, ex |-> e.ex, rc |-> e.rc, t |-> e.t, nterm |-> 0]
+    \* db: 0 is the database every key of these histories lives in; a request with another DbId (a database that
+    \* was never created, or 0xff) can only end in UNKNOWN_DB and touches no key: it counts as a user of none
+    LET db == IF Has(e, "db") THEN e.db ELSE 0
+        r  == [id |-> e.id, c |-> e.c, kind |-> e.kind, cmd |-> e.cmd, will |-> e.will, key |-> e.key, lid |-> e.lid,
+               to |-> e.to, ex |-> e.ex, rc |-> e.rc, t |-> e.t, nterm |-> 0, db |-> db]
         u  == IF e.key \in DOMAIN mm.users THEN mm.users[e.key] ELSE {}
-        m1 == [mm EXCEPT !.t = e.t, !.reqs = SetFn(@, e.id, r), !.users = SetFn(@, e.key, u \cup {e.c}),
+        m1 == [mm EXCEPT !.t = e.t, !.reqs = SetFn(@, e.id, r), !.users = SetFn(@, e.key, IF db = 0 THEN u \cup {e.c} ELSE u),
                          !.conns[e.c].wills = IF e.will THEN Append(@, e.id) ELSE @,
                          !.textq[e.c] = IF e.kind = "text" THEN Append(@, e.id) ELSE @,
                          \* an unlock that was sent (or willed) may release the hold without us seeing the reply
-                         !.maybe = IF e.cmd = "U" THEN @ \cup {<<e.key, e.lid>>} ELSE @]
+                         !.maybe = IF e.cmd = "U" /\ db = 0 THEN @ \cup {<<e.key, e.lid>>} ELSE @]
     IN m1
 
 \* a reply for request id was read on connection c
@@ -133,7 +136,7 @@ Account(mm, id, c, res, ct, e) ==
                     [c |-> o, kind |-> O.kind, rid |-> id, overtaken_by |-> SetToSeq(Later), evidence |-> "order of the will replies on the successor"])
         hold == [key |-> r.key, lid |-> r.lid, c |-> o, t |-> e.t, ex |-> r.ex, rid |-> id]
     IN [m4 EXCEPT !.reqs[id].nterm = IF res # EXPRIED THEN @ + 1 ELSE @,
-                  !.holds = IF r.cmd = "L" /\ res = 0 /\ r.ex > 0 THEN @ \cup {hold} ELSE @,
+                  !.holds = IF r.cmd = "L" /\ res = 0 /\ r.ex > 0 /\ r.db = 0 THEN @ \cup {hold} ELSE @,
                   !.maybe = IF res = EXPRIED THEN @ \cup {<<r.key, r.lid>>} ELSE @]
 
 StepFrame(mm0, e) ==
@@ -157,6 +160,7 @@ StepText(mm0, e) ==
     IN IF q = <<>>
        THEN Report(mm, "reply-misrouted", [origin |-> -1, origin_kind |-> "unknown", to |-> e.c, rid |-> -1, res |-> e.res,
                                             lid |-> e.lid, via |-> "unsolicited reply on a text connection"])
+       ELSE IF Head(q) = 0 THEN [mm EXCEPT !.textq[e.c] = Tail(q)]
        ELSE LET id == Head(q)
                 r  == mm.reqs[id]
                 m1 == [mm EXCEPT !.textq[e.c] = Tail(q)]
@@ -219,12 +223,13 @@ StepCloseAll(mm0, e) ==
 -----------------------------------------------------------------------------
 \* snapshots
 
-WillRecs(mm, c, k) == SelectSeq([i \in 1..Len(mm.conns[c].wills) |-> mm.reqs[mm.conns[c].wills[i]]], LAMBDA r : r.key = k)
+WillRecs(mm, c, k) == SelectSeq([i \in 1..Len(mm.conns[c].wills) |-> mm.reqs[mm.conns[c].wills[i]]], LAMBDA r : r.key = k /\ r.db = 0)
 
 \* W1 on the keys only this connection uses
 JudgeWills(mm, c, e) ==
     LET C  == mm.conns[c]
-        K  == {k \in {mm.reqs[w].key : w \in Range(C.wills)} : mm.users[k] = {c}}
+        \* per will, whatever the other wills of the list returned: every key is judged on its own
+        K  == {k \in {mm.reqs[w].key : w \in {x \in Range(C.wills) : mm.reqs[x].db = 0}} : mm.users[k] = {c}}
         Bad(k) ==
             LET ws  == WillRecs(mm, c, k)
                 B   == HolderOf(C.pre, k)
@@ -269,7 +274,7 @@ StepSnap(mm0, e) ==
         \* W1: never before the disconnect (effect of a will-lock whose LockId nothing else uses)
         Early == {w \in DOMAIN mm.reqs :
                     LET r == mm.reqs[w] IN
-                    /\ r.will /\ r.cmd = "L" /\ mm.conns[r.c].st = "open"
+                    /\ r.will /\ r.cmd = "L" /\ r.db = 0 /\ mm.conns[r.c].st = "open"
                     /\ \A x \in DOMAIN mm.reqs : (x # w /\ mm.reqs[x].key = r.key /\ mm.reqs[x].lid = r.lid) => mm.reqs[x].will /\ mm.reqs[x].c = r.c
                     /\ \E ks \in Range(e.keys) : ks.key = r.key /\ \E hd \in Range(ks.holders) : hd.lid = r.lid}
         m4 == Check(m3, Early = {}, "will-executed-before-disconnect",
@@ -303,6 +308,7 @@ Step(mm, e) ==
       [] e.e = "wconn"      -> StepConn(mm, e)
       [] e.e = "winit"      -> StepInit(mm, e)
       [] e.e = "wreq"       -> StepReq(mm, e)
+      [] e.e = "wsel"       -> [mm EXCEPT !.t = e.t, !.textq[e.c] = Append(@, 0)]     \* SELECT <db>: answered by one +OK line
       [] e.e = "wframe"     -> StepFrame(mm, e)
       [] e.e = "wtext"      -> StepText(mm, e)
       [] e.e = "wclose"     -> StepClose(mm, e)
